@@ -85,13 +85,12 @@ Definition rule_to_nrule (r : rule) : nrule :=               (* From<&Rule> for 
 
 Section Gen.
   Variable H : list ascii -> N.              (* DefaultHasher *)
-  Variable EV : str -> option str.           (* evalexpr *)
+  Variable EV : str -> evr.           (* evalexpr *)
 
   Definition to_ninja (env : fenv) (r : rule) : res nrule :=       (* Rule::to_ninja *)
     rmap (named H) (rule_expand EV env (rule_to_nrule r)).
 
-  Definition unwrap_expand (site : N) (x : res str) : res str :=
-    match x with Ok v => Ok v | Err _ => Panic site | Panic n => Panic n | Fuel => Fuel end.
+  Definition unwrap_expand (site : N) (x : res str) : res str := unwrap_res site x.
 
   Definition opt_unwrap {A} (site : N) (o : option A) : res A :=
     match o with Some a => Ok a | None => Panic site end.
